@@ -1,2 +1,5 @@
 """Record and object layouts (NamedTuples, classes) known to the heap model."""
 from .heapmodel import register_record, register_object
+
+register_record("ArtifactKitPayload", {"offset": "int", "size": "int", "xorkey": "bytes", "hints": "bytes",
+                                       "payload": "bytes"}, "dissect.cobaltstrike.artifact")
